@@ -412,3 +412,47 @@ def sleep_rule(ctx, P):
                    ('retried with the remaining time' if retried else 'not retried') if ok else
                    'the sleep is retried after EINTR with the full duration again: a thread that receives signals more often than the duration never leaves %s, and jls_twr_flush / a blocked send never re-check their deadline' % fn.name)
     ctx.floor('nanosleep sites', n, 1)
+
+
+def refused_send_rule(ctx, P, rule):
+    """A message the queue refused (BUSY / timeout) can be submitted again: before the send, a producer call stores nothing
+    into the writer object that one of its own conditions reads."""
+    F = 'src/threaded_writer.c'
+    n = 0
+    for fn in P.fns_in(F):
+        sends = [c for c in fn.calls(('msg_send', 'msg_send_inner')) if fn.name not in ('msg_send', 'msg_send_inner')]
+        if not sends or not fn.params:
+            continue
+        # only the calls whose result is the result of the API call (the caller learns about a refusal and retries)
+        returned = False
+        for r in fn.returns():
+            if r.e is not None and (any(nd.get('op') == 'call' and nd.get('callee') in ('msg_send', 'msg_send_inner') for nd in walk(r.e)) or
+                                    strip_casts(r.e).get('op') == 'ref'):
+                returned = True
+        if not returned:
+            continue
+        obj = fn.params[0]['name']
+        # fields of the writer object that conditions of this function read
+        cond_fields = set()
+        for b in fn.blocks.values():
+            for nd in walk(b.cond or {}):
+                if nd.get('op') in ('member', 'sub'):
+                    pth = fn.path(nd)
+                    if pth is not None and pth.t[1] == obj and len(pth.t) > 2:
+                        cond_fields.add(pth.t[2])
+        for c in sends:
+            n += 1
+            ctx.saw(fn, 1)
+            early = []
+            for ev in fn.stores():
+                l0 = strip_casts(ev.store_parts()[0])
+                pth = fn.path(l0) if l0.get('op') in ('member', 'sub') else None
+                if pth is None or pth.t[1] != obj or len(pth.t) < 3 or pth.t[2] not in cond_fields:
+                    continue
+                if find_path(fn, ev, lambda e2, facts: 'target' if e2 is c else None, refine=False) is not None:
+                    early.append(ev)
+            ctx.ob(rule, not early, fn.name, 'no accepting state is stored before %s' % c.callee, (early[0] if early else c).where(),
+                   'nothing the function tests is stored before the send' if not early else
+                   'the field %s of the writer object is updated before the message is queued and is tested by this function: when the queue refuses the message (BUSY) the update stays, and the retry of the same block is treated differently (swallowed as a duplicate, so the samples never reach the file)' %
+                   ', '.join(sorted(set(str(fn.path(strip_casts(e_.store_parts()[0]))) for e_ in early))))
+    ctx.floor('producer sends whose result is returned', n, 4)
